@@ -1,148 +1,14 @@
-"""What MANIFEST.json claims (regenerate with ./tools_manifest.py)."""
+"""What MANIFEST.json claims (regenerate with ./tools_manifest.py).
+One JSON file per claimed property in harness/registry.d/ (keys: property_id, text, note, technique)."""
+import glob, json, os
 
 NOTES = ("All checks: ./check <Cnn> --tier quick|thorough. Exit 0 = held (KNOWN-FINDING lines possible), 1 = VIOLATION, "
-         "2 = machinery broken. Lean project in lean/ (no Mathlib dependency in models; proofs use core tactics). "
-         "See DESIGN.md.")
+         "2 = machinery broken. Lean project in lean/ (models import nothing; proofs use core tactics). "
+         "known_findings.json lists known (unrepaired) and fixed (repaired by fix: commits, replayed each run) findings. See DESIGN.md.")
 
-CHECKS = [
-    {
-        "property_id": "C04",
-        "text": ("Kernel-checked theorems about the Lean model of aiohttp/http_writer.py: header serialisation succeeds iff no "
-                 "forbidden character (table regenerated from the source regex each run) and, when it succeeds, the bytes split at "
-                 "CRLF into exactly start line + one line per header + terminator with no bare CR/LF, for all code-point strings; a "
-                 "refused block writes nothing; for all write/send_headers programs chunked output decodes (reference RFC 9112 "
-                 "decoder) to the written data and a declared length is honoured exactly. The model is tied to the code by a "
-                 "differential correspondence run (serializer on every special code point in every position + random strings; "
-                 "StreamWriter on random and small-exhaustive op programs) plus a direct oracle on the real bytes."),
-        "note": ("Trusted: Lean kernel; the hand-written model (validated by correspondence only); zlib output taken as oracle column; "
-                 "CIMultiDict ordering; only the concatenation of transport writes is modelled. Header block assumed to have >= 1 field."),
-        "technique": "Lean 4 theorem (induction over op sequences / code-point strings) + generated-table re-check + model/implementation differential correspondence",
-    },
-    {
-        "property_id": "C01",
-        "text": ("Kernel-checked theorems about the Lean model of the pure-Python request parser (aiohttp/http_parser.py): whatever request head "
-                 "is accepted is a strict RFC 9112 reading (token method, request-target free of CTL/whitespace, HTTP/d.d; field lines "
-                 "token ':' OWS value OWS with values free of forbidden controls; reported field list = that reading, in order; no singleton "
-                 "header twice); Content-Length with Transfer-Encoding is rejected; a derived length is 1*DIGIT; a request's Transfer-Encoding "
-                 "must end in a single chunked; obs-fold, bare LF in the request line, missing/duplicate Host on HTTP/1.1 are rejected — for all "
-                 "byte strings, all limits and all behaviours of yarl. Character-class tables are regenerated from the source regexes on every "
-                 "run. The model is tied to the code by differential correspondence on grammar-generated and mutated request streams (42 "
-                 "mutation classes, 3 segmentations each); a direct oracle compares the real parser with an independent strict RFC 9112 reader "
-                 "(messages, fields, body bytes, accept/reject in both directions) and the real server (AppRunner over an in-memory transport) "
-                 "must answer every rejected stream with a 4xx and close, and every complete request with a response."),
-        "note": ("Trusted: Lean kernel; hand-written model (validated by correspondence); yarl accept/reject as oracle column; the strict reference "
-                 "reader (harness/common/rfc9112.py, lean/AioProps/HttpSpec.lean) is my reading of RFC 9112; method compared after upper-casing; "
-                 "chunked-body strictness (chunk-size/extension/trailer classes) is carried by correspondence + reference reader, not yet by a theorem; "
-                 "decompression and back-pressure are outside this model. Seven parser defects found here were repaired by fix: commits and are replayed as fixed findings."),
-        "technique": "Lean 4 soundness theorem (accepted ⇒ strict reading) + per-class rejection lemmas + regenerated tables + model/implementation correspondence + independent reference reader",
-    },
-    {
-        "property_id": "C03",
-        "text": ("Kernel-checked laws on which the resumable parser's segmentation independence rests, for all byte strings and limits: a line "
-                 "terminator found in a prefix is found at the same place in every extension (strict CRLF and lax LF); the early checks made on a "
-                 "buffered partial line only reject what the check on the completed line rejects too (strict and lax; exactly the laws the "
-                 "unchanged code violated: F1-F3, now fixed); Content-Length and close-delimited bodies are delivered compositionally under every "
-                 "split; a rejected parser stays rejected and silent. The step from these laws to whole-stream independence is carried by the "
-                 "correspondence run, which validates the Lean model against the real request and response parsers at EVERY single cut of every "
-                 "generated stream (plus pairs, k-cuts, byte-at-a-time, with/without EOF, limits within ±1 of line lengths, unequal limits), "
-                 "and by a direct oracle comparing all segmentations of the real parser with each other."),
-        "note": ("Trusted: Lean kernel; hand-written model; yarl oracle column; outcome relation ≈ (accepted ⇒ identical events; rejected ⇒ rejected or "
-                 "incomplete with prefix-comparable events; exception class may differ). The full two-cut theorem for the chunked state machine is not "
-                 "proved (model-level laws + correspondence at every cut instead). Back-pressure pauses and decompression: see C09."),
-        "technique": "Lean 4 lemmas (separator stability, early-check soundness, body compositionality) + all-cuts model/implementation correspondence + cross-segmentation oracle",
-    },
-    {
-        "property_id": "C07",
-        "text": ("Kernel-checked theorems over all label sequences (all interleavings at await granularity of spawn, event-loop callback, attempt ok/fail, "
-                 "cancel, timeout, release, lost idle connection, close, any shuffle) about a Lean model of BaseConnector's pool: with the repairs "
-                 "switched on, global and per-host limits always hold, every connection attempt is counted, with no live request nothing stays counted, "
-                 "after close every created connection is closed and nothing is counted or queued, and every _release_waiter with an eligible live "
-                 "waiter wakes exactly one. The model carries a flag per repair and the harness probes the tree to pick the flags, so it models the "
-                 "code that exists; the unrepaired behaviours (F7 fast path ignoring the limit, F8 lost wake-up, race lost wake-up, closed-connector "
-                 "residue) are kernel-checked counterexamples. Tied to the real connector by trace conformance after every label on a hand-stepped "
-                 "virtual loop (guided generators + exhaustive small-scope exploration) and a direct oracle on the real object."),
-        "note": ("Theorems are for the repaired model (two of the four repairs are now committed as fix:; F7 and the closed-connector cases are known "
-                 "findings). Global no-forgotten-waiter at quiescence is proved only as the wake-up step (partial). Trusted: model faithfulness "
-                 "(correspondence), asyncio FIFO and cancel semantics; traces, keepalive expiry, force_close, SSL cleanup not modelled."),
-        "technique": "Lean 4 invariants by induction over label sequences + decide +kernel counterexamples + trace conformance under a virtual loop",
-    },
-    {
-        "property_id": "C08",
-        "text": ("Kernel-checked theorems about a Lean model of streams.StreamReader and the pause/resume half of BaseProtocol, for all limits and all "
-                 "finite interleavings of feed_data, chunk markers, feed_eof, set_exception, connection loss with read(n), read(), readany, "
-                 "readuntil/readline, readexactly, readchunk, read_nowait, the async iterators and coroutine resumption: bytes taken plus bytes "
-                 "buffered equal bytes fed, in order; returned bytes are exactly the taken bytes unless a call raised; end-of-stream from "
-                 "read/readany/read(-1)/readchunk only after all data; readchunk True flags sit on sender boundaries; while not paused size ≤ high "
-                 "water and chunk count ≤ chunk high water; pause/resume happen exactly at the water marks; a blocked reader never has reading "
-                 "paused when limit > 0 (kernel-checked counterexample for limit = 0, a known finding). Tied to the code by a per-step differential "
-                 "run (random + exhaustive short sequences) plus a direct oracle on the real object."),
-        "note": ("Trusted: Lean kernel; hand-written model (correspondence only). Single consumer; no cancellation, unread_data, re-entrant feeding from "
-                 "resume_reading or chunk hook. End-of-stream for readuntil/readexactly/iterators, readchunk not crossing boundaries and op-level resume "
-                 "are covered by correspondence and oracle only."),
-        "technique": "Lean 4 invariant proofs by induction over op sequences + regenerated constants + step-wise correspondence + direct oracle",
-    },
-    {
-        "property_id": "C14",
-        "text": ("Kernel-checked theorems about the Lean model of web_urldispatcher: for all index-consistent route tables (nested and domain sub-apps) "
-                 "and all paths, the prefix-index walk equals the documented linear rule (longest fixed prefix, registration order, method); 404/405 iff "
-                 "statements with a complete Allow set for flat tables; registration ops preserve index consistency (add_subapp re-indexing partial); "
-                 "the template matcher inverts substitution (url_for partial, under yarl laws); no normalize_path redirect candidate starts with '//'. "
-                 "Tied to the code by a differential run (random and exhaustive small tables, all nested indexes compared) and a direct oracle "
-                 "against a Python twin of the documented rule."),
-        "note": ("yarl quoting, normpath and re character classes (regenerated per run) are oracle columns; sub-app verdicts are final; paths start with '/'. "
-                 "Five reproduced deviations (quoted-literal resources never match: dynamic/sub-app/static/url_for; KeyError mounting a sub-app that holds a "
-                 "domain resource) are known findings."),
-        "technique": "Lean 4 refinement proof (index walk ≡ linear spec) + invariants + generated tables + differential correspondence",
-    },
-    {
-        "property_id": "C16",
-        "text": ("Kernel-checked theorems about the Lean model of cookiejar.py, for all histories of responses, clock advances, clear/clear_domain, "
-                 "save+load and queries: the cookies attached to a request are exactly those RFC 6265 §5.4 selects from what the jar has recorded — never "
-                 "to a host that does not domain-match, host-only only to the exact host, Secure only over https/wss, not after the recorded deadline, "
-                 "path-scoped for paths with ≤1 trailing slash, nothing in scope withheld — and a response can change no cookie, host-only mark or "
-                 "deadline outside its own host's domain. The full refinement to an RFC 6265 reference store is false for the unchanged code; eight "
-                 "deviations are kernel-checked counterexamples and known findings. Tied to the code by differential correspondence (outputs and full "
-                 "jar state incl. heap and dict order) and a direct oracle comparing the real CookieJar, the real parse path and a real ClientSession "
-                 "against a Python twin of the reference store."),
-        "note": ("Trusted: Lean kernel; hand-written model; http.cookies/_cookie_helpers parsing, int(), _parse_date, yarl, heapq not modelled; reference store = "
-                 "my reading of RFC 6265 §5 (no public-suffix list, CookieJar's IP policy); observation is a name→value map; ASCII hosts; every response has a host."),
-        "technique": "Lean 4 invariants over all op sequences + selection refinement to an RFC 6265 reference + decide +kernel counterexamples + differential correspondence + reference-store oracle",
-    },
-    {
-        "property_id": "C19",
-        "text": ("Kernel-checked theorems about a Lean model of multipart.py over a lazy StreamReader model: the sliding boundary window finds the first "
-                 "delimiter for every split across reads and never a false one; the read_chunk loop over any sequence of fresh-chunk sizes ≥ the delimiter "
-                 "length returns exactly the part content and terminates within |content|+4 calls (delimiter-free encoded content, CR-free boundary); "
-                 "base64 alignment loses no byte and yields whole quartets unless fewer than four characters are available (that escape is reachable: a "
-                 "finding); a declared MultipartWriter.size equals the bytes written and is declared iff no part is encoded; the gathering loop cannot "
-                 "spin and at most two calls succeed after EOF. Tied to the code by event-by-event differential runs (writer round trips under lazy "
-                 "segmentations and all read APIs, mutation stream under small limits, FormData→post()) plus a direct round-trip/size/termination/limits oracle."),
-        "note": ("Trusted: Lean kernel; hand-written model; zlib and quoted-printable are oracle columns; stream = lazy non-empty segments. The step from "
-                 "_read_chunk_from_stream to the abstract chunk loop, next/nesting/readline/length mode, parse_content_disposition, FormData and post() are "
-                 "covered by correspondence/oracle only; full drive-loop termination is _partial. Seven reproduced deviations are known findings."),
-        "technique": "Lean 4 theorems (invariant + induction over arbitrary chunkings) + generated-table re-check + differential correspondence with a scripted lazy-stream consumer",
-    },
-    {
-        "property_id": "C20",
-        "text": ("Kernel-checked theorems about Lean models of CleanupContext and Application signals with sub-applications, AppRunner setup/cleanup, "
-                 "web._run_app, and the shutdown path (Server.pre_shutdown/shutdown, RequestHandler.shutdown/close, ceil_timeout): for all n and all "
-                 "failing sets cleanup code never runs twice nor without completed start-up (every tree, both entries); it runs exactly for what "
-                 "started, in reverse order, for one application through AppRunner; for trees and run_app under stated no-raise hypotheses (_partial) "
-                 "with kernel-checked counterexamples for each excluded case. For all schedules: no handler starts after pre_shutdown; idle connections "
-                 "are closed when Server.shutdown starts; an in-flight handler finishing within T completes with its response; all handlers are finished "
-                 "or cancelled by 2T plus rounding; every transport is closed if cleanup returns. Tied to the code by differential correspondence "
-                 "(incl. web.run_app itself) on a virtual-time loop with in-memory transports plus a direct oracle on the real event log and timestamps."),
-        "note": ("Trusted: hand-written models (correspondence); aiosignal; asyncio scheduling; in-memory transports and virtual clock; handlers as sleep/body "
-                 "oracles; no exact ties between handler completion and deadlines. Eight reproduced deviations (run_app setup outside try, on_shutdown raising, "
-                 "sub-app contexts after failed start-up, cleanup error hiding later apps, cross-app order, idle close delayed by on_shutdown, in-flight body "
-                 "dropped after pre_shutdown, shutdown_timeout=0) are known findings."),
-        "technique": "Lean 4 theorems (induction over chains, all-schedule invariants of a timed state machine) + decide +kernel counterexamples + trace correspondence under virtual time",
-    },
-]
-
+_D = os.path.join(os.path.dirname(os.path.abspath(__file__)), "registry.d")
+CHECKS = [json.load(open(p)) for p in sorted(glob.glob(os.path.join(_D, "C*.json")))]
 
 _PENDING = "not yet built in this round — planned per DESIGN.md §8; no claim is made until its model, theorems and correspondence exist"
-NOT_APPLICABLE = [
-    {"property_id": p, "reason": _PENDING}
-    for p in ["C02", "C05", "C06", "C09", "C10", "C11", "C12", "C13", "C15", "C17", "C18"]
-]
+_claimed = {c["property_id"] for c in CHECKS}
+NOT_APPLICABLE = [{"property_id": f"C{i:02d}", "reason": _PENDING} for i in range(1, 21) if f"C{i:02d}" not in _claimed]
